@@ -31,4 +31,10 @@ def main():
 
 
 if __name__ == "__main__":
-    sys.exit(main())
+    rc = main()
+    pf = os.environ.get("VERIF_PROGRESS")
+    if pf:
+        sys.stdout.flush()
+        with open(pf + ".done", "w") as f:
+            f.write(str(rc))
+    sys.exit(rc)
